@@ -94,6 +94,24 @@ func zzC15NewTable(rng *rand.Rand, scope string) (tb *zzC15Table) {
 	return tb
 }
 
+// fit shortens the long rule so that no physical line of ts, which may glue
+// several of them with bare CRs, reaches the 64 KiB of a line buffer: "RL" is
+// a long line that fits, "XL" is the one that does not.
+func (tb *zzC15Table) fit(ts []string) {
+	most, cur := 1, 0
+	for _, t := range ts {
+		switch t {
+		case "LF":
+			cur = 0
+		case "RL":
+			cur++
+			most = max(most, cur)
+		}
+	}
+
+	tb.rlLen = min(tb.rlLen, 64000/most-200)
+}
+
 // tok returns the spelling of token t.
 func (tb *zzC15Table) tok(t string) (s string) {
 	if s, ok := tb.m[t]; ok {
@@ -389,6 +407,7 @@ func TestZZVerifC15ParseReplay(t *testing.T) {
 		key := strings.Join(v.T, " ")
 		rng := zzC15Rng(key)
 		tb := zzC15NewTable(rng, "x")
+		tb.fit(v.T)
 		chunk := zzC15Chunk(rng)
 		o := zzC15RunParser(tb, v.T, chunk)
 		if o.Ok && len(o.Rules) > 0 {
@@ -402,7 +421,9 @@ func TestZZVerifC15ParseReplay(t *testing.T) {
 
 		// Reproduce in isolation: same bytes, fresh parser, whole-body reads.
 		rng2 := zzC15Rng(key)
-		o2 := zzC15RunParser(zzC15NewTable(rng2, "x"), v.T, 1<<20)
+		tb2 := zzC15NewTable(rng2, "x")
+		tb2.fit(v.T)
+		o2 := zzC15RunParser(tb2, v.T, 1<<20)
 		diffs2 := zzC15ParseDiffs(v, o2)
 		if len(diffs2) == 0 {
 			w.put(map[string]any{"kind": "chunking", "t": v.T, "diffs": diffs, "got": o})
@@ -544,6 +565,7 @@ func TestZZVerifC15ParseTrace(t *testing.T) {
 	for i := 0; i < n; i++ {
 		ts := zzC15RandText(rng, zzC15Lines(rng), 9, true, rng.Intn(3) != 0)
 		tb := zzC15NewTable(rng, "x")
+		tb.fit(ts)
 		o := zzC15RunParser(tb, ts, zzC15Chunk(rng))
 		fp := o.FPOk && o.FPCount && o.FPSum && o.FPBytes && o.FPLoad && o.Written
 		w.put(map[string]any{
@@ -705,7 +727,7 @@ func (w *zzC15World) start() (err error) {
 			Timeout:   10 * time.Second,
 			Transport: &zzC15Transport{w: w, base: &http.Transport{DisableKeepAlives: true}},
 		},
-		HTTPRegister: func(method, url string, h http.HandlerFunc) { w.mux[method+" "+url] = h },
+		HTTPRegister:               func(method, url string, h http.HandlerFunc) { w.mux[method+" "+url] = h },
 		ConfigModified:             func() {},
 		FilteringEnabled:           true,
 		ProtectionEnabled:          true,
@@ -1407,6 +1429,11 @@ func TestZZVerifC15RefreshTrace(t *testing.T) {
 		only, _ = strconv.Atoi(s)
 	}
 
+	shard, shards := 0, 1
+	if s := zzGetenv("VERIF_SHARD"); s != "" {
+		_, _ = fmt.Sscanf(s, "%d/%d", &shard, &shards)
+	}
+
 	const nAtoms = 6
 	atoms := []string{}
 	for i := 1; i <= nAtoms; i++ {
@@ -1415,7 +1442,7 @@ func TestZZVerifC15RefreshTrace(t *testing.T) {
 
 	names := []string{"b1", "b2", "a1", "a2"}
 	for tr := 0; tr < nTraces; tr++ {
-		if only >= 0 && tr != only {
+		if only >= 0 && tr != only || tr%shards != shard {
 			continue
 		}
 
